@@ -136,10 +136,24 @@ theorem rd_exchange_follow {s : SendSettings} {req : Req} {cap n : Nat} {url : U
     s.followRedirects = true → isRedirectStatus resp.status = true →
     n + 1 ≤ s.maxRedirections →
     resp.headers.get (hName "location") = some v → hop.resolved = some next →
+    undialable next = none →
     exchange s req cap n url hop = .follow next := by
-  intro h hf hr hn hl hres
+  intro h hf hr hn hl hres hd
   have : ¬ (n + 1 > s.maxRedirections) := by omega
-  simp [exchange, h, hf, hr, this, hl, hres]
+  simp [exchange, h, hf, hr, this, hl, hres, hd]
+
+/-- A target the client cannot dial ends the exchange with that error, nothing further is dialled. -/
+theorem rd_exchange_undialable {s : SendSettings} {req : Req} {cap n : Nat} {url : Url} {hop : Hop}
+    {resp : Resp} {v : Bytes} {next : Url} {e : E} :
+    parseResponse req.methodM s.maxHeaders cap hop.script = .ok resp →
+    s.followRedirects = true → isRedirectStatus resp.status = true →
+    n + 1 ≤ s.maxRedirections →
+    resp.headers.get (hName "location") = some v → hop.resolved = some next →
+    undialable next = some e →
+    exchange s req cap n url hop = .final (.err e) := by
+  intro h hf hr hn hl hres hd
+  have : ¬ (n + 1 > s.maxRedirections) := by omega
+  simp [exchange, h, hf, hr, this, hl, hres, hd]
 
 /-- `exchange` follows only under all of these conditions. -/
 theorem rd_exchange_follow_inv {s : SendSettings} {req : Req} {cap n : Nat} {url : Url} {hop : Hop}
@@ -148,7 +162,7 @@ theorem rd_exchange_follow_inv {s : SendSettings} {req : Req} {cap n : Nat} {url
     ∃ resp v, parseResponse req.methodM s.maxHeaders cap hop.script = .ok resp ∧
       s.followRedirects = true ∧ isRedirectStatus resp.status = true ∧
       n + 1 ≤ s.maxRedirections ∧ resp.headers.get (hName "location") = some v ∧
-      hop.resolved = some next := by
+      hop.resolved = some next ∧ undialable next = none := by
   intro h
   unfold exchange at h
   split at h
@@ -168,8 +182,11 @@ theorem rd_exchange_follow_inv {s : SendSettings} {req : Req} {cap n : Nat} {url
           split at h
           · cases h
           · rename_i nx hres
+            split at h
+            · cases h
+            rename_i hd
             cases h
-            refine ⟨resp, v, hp, ?_, ?_, by omega, hl, hres⟩
+            refine ⟨resp, v, hp, ?_, ?_, by omega, hl, hres, hd⟩
             · cases hf : s.followRedirects with
               | true => rfl
               | false => simp [hf] at hc
@@ -193,7 +210,9 @@ theorem rd_exchange_ok_url {s : SendSettings} {req : Req} {cap n : Nat} {url : U
       · cases h
       · split at h
         · cases h
-        · split at h <;> cases h
+        · split at h
+          · cases h
+          · split at h <;> cases h
 
 /-! ### `sendLoop`, one equation per branch -/
 
@@ -374,7 +393,7 @@ theorem rd_trace_length_le {s : SendSettings} {req : Req} {cap : Nat} {hops : Li
   | final => simp
   | followEnd => simp
   | follow hop h2 rest url n next us f ht he _ ih =>
-    obtain ⟨_, _, _, _, _, hn, _, _⟩ := rd_exchange_follow_inv he
+    obtain ⟨_, _, _, _, _, hn, _, _, _⟩ := rd_exchange_follow_inv he
     simp only [List.length_cons] at ih ⊢
     omega
 
@@ -405,7 +424,7 @@ theorem rd_trace_next {s : SendSettings} {req : Req} {cap : Nat} {hops : List Ho
       simp only [Nat.zero_add, List.getElem?_cons_succ] at hi
       rw [← List.head?_eq_getElem?] at hi
       rw [hh] at hi; cases hi
-      obtain ⟨_, _, _, _, _, _, _, hres⟩ := rd_exchange_follow_inv he
+      obtain ⟨_, _, _, _, _, _, _, hres, _⟩ := rd_exchange_follow_inv he
       exact ⟨hop, url, rfl, rfl, hres, he⟩
     | succ i =>
       simp only [List.getElem?_cons_succ] at hi
